@@ -5,6 +5,7 @@ from harness import solverlib as L, solvergen as G
 PARALLEL = True
 SHARD = 40
 COQ_TIMEOUT = 1200
+MAX_MODEL_ITERS = 400
 TRUSTED = [
     "user cost / constraints / penalty are recorded tables in the correspondence run and universally quantified section variables in the theorems",
     "the trial vectors of the DE strategies, the Nelder-Mead candidate points, numpy.argsort's permutation and the population after (re)decoration are oracle inputs of the machine model (recorded from /repo in the correspondence; arbitrary in the theorems); their arithmetic is the subject of C08",
@@ -175,7 +176,9 @@ def oracle_c02(case, out):
             for k, s in enumerate(out["trace"]):
                 if k >= first and isfinite(s["bestE"]):
                     if any(not (lo <= v <= hi) for v, lo, hi in zip(s["bestX"], op["lo"], op["hi"])):
-                        f.append(fail("best_inside", site_of(case), "best-outside-box", dict(op=k, bestX=s["bestX"])))
+                        tk, tpat = taint_index(case, out)
+                        sfx = (":" + tpat) if (tk is not None and k >= tk) else ""     # F9: stale energy kept for a moved member
+                        f.append(fail("best_inside", site_of(case), "best-outside-box" + sfx, dict(op=k, bestX=s["bestX"], bestE=s["bestE"])))
                         break
     for op, r in zip(case["ops"], out["opres"]):
         if op["op"] == "SetRandomInitialPoints":
@@ -442,12 +445,20 @@ class RosenCost(object):
         return sum(100.0 * (x[i + 1] - x[i] ** 2) ** 2 + (1 - x[i]) ** 2 for i in range(len(x) - 1)) + (0.0 if len(x) > 1 else (x[0] - 1) ** 2)
 
 
+class WrapPenalty(object):
+    """harness-owned penalty for the wrappers: non-zero almost everywhere"""
+    def __init__(self, w):
+        self.w = w
+    def __call__(self, x):
+        return self.w * sum(abs(float(v) - 0.25) for v in x)
+
+
 def gen_wrapper(rng):
     w = rng.choice(["fmin", "fmin_powell", "diffev", "diffev2"])
     ndim = rng.choice([1, 2, 3, 4]) if w != "fmin" else rng.choice([2, 3, 5, 6])
     return dict(kind="wrapper", solver=w, ndim=ndim, npop=rng.choice([4, 6, 10]), cost=rng.choice(["rosen", "rosen", "bowl"]),
                 maxiter=rng.choice([None, None, 0, 1, 3, 25]), maxfun=rng.choice([None, None, 1, 7, 60]),
-                x0=[G.grid(rng, -2, 2) for _ in range(ndim)], seed=rng.randrange(10 ** 6))
+                x0=[G.grid(rng, -2, 2) for _ in range(ndim)], seed=rng.randrange(10 ** 6), pen=rng.choice([None, None, 0.5, 2.0]))
 
 
 def run_wrapper(case):
@@ -462,6 +473,9 @@ def run_wrapper(case):
             cost = RosenCost(case["cost"]); em, sm = Monitor(), Monitor()
             w = case["solver"]
             kw = dict(maxiter=case["maxiter"], maxfun=case["maxfun"], full_output=1, disp=0, evalmon=em, itermon=sm, handler=False)
+            pen = WrapPenalty(case["pen"]) if case.get("pen") else None
+            if pen is not None:
+                kw["penalty"] = pen
             if w == "fmin":
                 r = fmin(cost, list(case["x0"]), **kw)
             elif w == "fmin_powell":
@@ -471,7 +485,7 @@ def run_wrapper(case):
             return dict(x=[float(v) for v in np.atleast_1d(r[0])], fval=float(np.ravel(r[1])[0]), iters=int(r[2]), fcalls=int(r[3]), warnflag=int(r[4]),
                         real=cost.n, nem=len(em), nsm=len(sm), nstep=len(sm),
                         x_evaluated=any([float(v) for v in np.atleast_1d(p)] == [float(v) for v in np.atleast_1d(r[0])] for p in em.x),
-                        cost_at_x=float(RosenCost(case["cost"])(np.atleast_1d(r[0]))),
+                        cost_at_x=float(RosenCost(case["cost"])(np.atleast_1d(r[0])) + (pen(np.atleast_1d(r[0])) if pen is not None else 0.0)),
                         last_logged=([float(v) for v in np.atleast_1d(sm.x[-1])], float(np.ravel(sm.y[-1])[0])) if len(sm) else None)
 
 
@@ -493,7 +507,7 @@ def oracle_wrapper(case, out):
     if not out["x_evaluated"]:
         f.append(fail("best_is_evaluated", site, "wrapper-result-never-evaluated", dict(x=out["x"])))
     if out["fval"] != out["cost_at_x"]:
-        f.append(fail("best_energy_is_cost", site, "wrapper-fval-is-not-cost-at-x", dict(x=out["x"], fval=out["fval"], cost=out["cost_at_x"])))
+        f.append(fail("best_energy_is_cost", site, "wrapper-fval-is-not-cost-plus-penalty-at-x", dict(x=out["x"], fval=out["fval"], cost=out["cost_at_x"])))
     if out["last_logged"] is not None and out["last_logged"][1] != out["fval"]:
         f.append(fail("last_is_reported", site, "wrapper-last-logged-energy-not-fval", dict(last=out["last_logged"], fval=out["fval"])))
     if out["nem"] != out["real"]:
@@ -600,6 +614,8 @@ def make_coq_terms(mask):
     def coq_terms(case, out):
         if "__exception__" in out or case.get("kind") in ("collapse", "ensemble", "wrapper") or not L.modelled(case):
             return []
+        if sum(len(r.get("inputs", [])) for r in out.get("opres", [])) > MAX_MODEL_ITERS:
+            return []      # a run of thousands of iterations (e.g. every energy infinite until the default limits): oracle only
         return [L.check_term(case, out, mask)]
     return coq_terms
 
